@@ -147,7 +147,11 @@ def explore_wrapper(chk, malformed=False):
         return [("val", None, st_), ("raise", exc, s2)]
 
     def get_input_payload(eng_, st_, args, kwargs):
-        return [("val", eng_.sym_of_type("str | None", "raw_input_payload", st_), st_)]
+        # contract verified against the body in C18.exec.input_payload: the payload (or None), or DurableExecutionsError when the first record is not the EXECUTION record
+        s2 = st_.fork()
+        exc = s2.alloc(P.cls("exceptions.DurableExecutionsError"), {"args": ("First operation in initial execution state is not an execution operation",)})
+        s2.emit("malformed_history")
+        return [("val", eng_.sym_of_type("str | None", "raw_input_payload", st_), st_), ("raise", exc, s2)]
 
     eng.summaries["state.ExecutionState.fetch_paginated_operations"] = fetch_summary
     eng.summaries["state.ExecutionState.create_checkpoint"] = cp_summary
